@@ -14,6 +14,10 @@ import copy
 from .model import dotted, src, AnalysisError
 
 
+import re as _re
+_TOK = _re.compile(r"[A-Za-z_][A-Za-z_0-9]*(?:\.[A-Za-z_][A-Za-z_0-9]*)*")
+
+
 class Ev:
     """One event on a path."""
     __slots__ = ("kind", "stmt", "a", "b")
@@ -60,7 +64,7 @@ def _names_in(node):
 
 
 def _assigned_roots(stmt):
-    """root names (possibly of attribute paths) written by an assignment-like statement"""
+    """dotted paths (or bare names) written by an assignment-like statement: 'x', 'self.upper'"""
     out = set()
     tg = []
     if isinstance(stmt, ast.Assign):
@@ -69,10 +73,29 @@ def _assigned_roots(stmt):
         tg = [stmt.target]
     elif isinstance(stmt, (ast.For,)):
         tg = [stmt.target]
+
+    def add(t):
+        if isinstance(t, (ast.Tuple, ast.List)):
+            for e in t.elts:
+                add(e)
+        elif isinstance(t, ast.Starred):
+            add(t.value)
+        elif isinstance(t, ast.Name):
+            out.add(t.id)
+        elif isinstance(t, ast.Attribute):
+            d = dotted(t)
+            if d:
+                out.add(d)
+            else:
+                for n in ast.walk(t):
+                    if isinstance(n, ast.Name):
+                        out.add(n.id)
+        elif isinstance(t, ast.Subscript):
+            d = dotted(t.value)
+            if d:
+                out.add(d)
     for t in tg:
-        for n in ast.walk(t):
-            if isinstance(n, ast.Name):
-                out.add(n.id)
+        add(t)
     return out
 
 
@@ -116,14 +139,26 @@ def enum_paths(body, cap=20000, prune=True):
         return facts.get(key, pol) == pol
 
     def kill(facts, roots):
-        if not roots:
+        if not roots or not facts:
             return facts
-        return {k: v for k, v in facts.items() if not (set(_tokens(k)) & roots)}
+        out = {}
+        for k, v in facts.items():
+            toks = _tokens(k)
+            dead = False
+            for r in roots:
+                for t in toks:
+                    if t == r or t.startswith(r + "."):
+                        dead = True
+                        break
+                if dead:
+                    break
+            if not dead:
+                out[k] = v
+        return out
 
     def _tokens(key):
-        # cheap: identifiers in the key string
-        import re
-        return re.findall(r"[A-Za-z_][A-Za-z_0-9]*", key)
+        # dotted identifiers in the key string
+        return _TOK.findall(key)
 
     # continuation-passing enumeration: run(stmts, i, prefix, facts, conts)
     # conts: stack of (kind, payload) describing what follows the current block
@@ -241,48 +276,76 @@ def enum_paths(body, cap=20000, prune=True):
 
 # --------------------------------------------------------------------------- substitution
 
-class _Subst(ast.NodeTransformer):
-    def __init__(self, env):
-        self.env = env
+def _bound_names(node):
+    out = set()
+    if isinstance(node, ast.Lambda):
+        a = node.args
+        for x in a.posonlyargs + a.args + a.kwonlyargs:
+            out.add(x.arg)
+        if a.vararg:
+            out.add(a.vararg.arg)
+        if a.kwarg:
+            out.add(a.kwarg.arg)
+    else:
+        for g in node.generators:
+            out |= _names_in(g.target)
+    return out
 
-    def visit_Name(self, node):
-        if isinstance(node.ctx, ast.Load) and node.id in self.env:
-            return self.env[node.id]   # shared, never mutated
+
+def subst(node, env):
+    """Functional substitution: returns ``node`` itself when nothing below it changes, otherwise a
+    shallow rebuild of the spine. Environment values are shared, never copied or mutated."""
+    if not env:
         return node
+    return _sub(node, env)
 
-    def visit_Attribute(self, node):
+
+def _sub(node, env):
+    if isinstance(node, ast.Name):
+        if isinstance(node.ctx, ast.Load) and node.id in env:
+            return env[node.id]
+        return node
+    if isinstance(node, ast.Attribute):
         if isinstance(node.ctx, ast.Load):
             d = dotted(node)
-            if d is not None and d in self.env:
-                return self.env[d]
-        node.value = self.visit(node.value)
+            if d is not None and d in env:
+                return env[d]
+    if isinstance(node, (ast.Lambda, ast.ListComp, ast.SetComp, ast.GeneratorExp, ast.DictComp)):
+        bound = _bound_names(node)
+        if bound:
+            env = {k: v for k, v in env.items() if k.split(".")[0] not in bound}
+            if not env:
+                return node
+    if isinstance(node, ast.Constant):
         return node
-
-    def visit_Lambda(self, node):
-        # do not substitute bound parameter names inside lambdas
-        bound = {a.arg for a in node.args.args}
-        sub = _Subst({k: v for k, v in self.env.items() if k.split(".")[0] not in bound})
-        node.body = sub.visit(node.body)
+    changed = None
+    for fld, old in ast.iter_fields(node):
+        if isinstance(old, ast.AST):
+            if isinstance(old, (ast.expr_context, ast.operator, ast.unaryop, ast.cmpop, ast.boolop)):
+                continue
+            new = _sub(old, env)
+            if new is not old:
+                if changed is None:
+                    changed = {}
+                changed[fld] = new
+        elif isinstance(old, list) and old:
+            newl = None
+            for i, it in enumerate(old):
+                if isinstance(it, ast.AST):
+                    ni = _sub(it, env)
+                    if ni is not it:
+                        if newl is None:
+                            newl = list(old)
+                        newl[i] = ni
+            if newl is not None:
+                if changed is None:
+                    changed = {}
+                changed[fld] = newl
+    if changed is None:
         return node
-
-    def _comp(self, node):
-        bound = set()
-        for g in node.generators:
-            bound |= _names_in(g.target)
-        sub = _Subst({k: v for k, v in self.env.items() if k.split(".")[0] not in bound})
-        for fld in ("elt", "key", "value"):
-            if hasattr(node, fld):
-                setattr(node, fld, sub.visit(getattr(node, fld)))
-        for g in node.generators:
-            g.iter = self.visit(g.iter)
-            g.ifs = [sub.visit(x) for x in g.ifs]
-        return node
-
-    visit_ListComp = visit_SetComp = visit_GeneratorExp = visit_DictComp = _comp
-
-
-def subst(expr, env):
-    return _Subst(env).visit(copy.deepcopy(expr))
+    kwargs = {f: changed.get(f, v) for f, v in ast.iter_fields(node)}
+    new = type(node)(**kwargs)
+    return ast.copy_location(new, node) if hasattr(node, "lineno") else new
 
 
 def _elem(call_like, i):
